@@ -12,6 +12,9 @@ import GeoModel.Area
 import GeoModel.Winding
 import GeoProofs.Lemmas.C05Area
 import GeoProofs.Lemmas.C05Winding
+import GeoProofs.Lemmas.C05PConvex
+import GeoProofs.Lemmas.C05PRotate
+import GeoProofs.Lemmas.C05PFloat
 import Mathlib.Tactic.NormNum
 
 namespace Geo.Proofs.C05
@@ -615,6 +618,183 @@ example : windingOrder [⟨5, 1⟩, ⟨0, 0⟩, ⟨2, 7⟩, ⟨5, 1⟩] = some .
     (by simp) (by simp) (by simp)).2.1]
   norm_num [shoelace2, det]
 
+/-! ### Winding order against the sign of the area: convex rings
+
+`convexRing r` (GeoProofs/Lemmas/C05PConvex.lean): every coordinate of the ring lies on one closed side
+of every edge line, the same side for all edges — the half-plane definition of a convex polygon, in
+non-strict form, so repeated coordinates, collinear vertices, flat and short rings are all admitted.
+
+Why not "all consecutive turns have the same strict sign": that local condition also holds for star
+polygons (a pentagram turns left at every vertex, total turning 4π), and for those the fan
+triangles from the pivot do *not* all have the same orientation (`pentagram_fan_counterexample`
+below), so the fan argument does not go through; the half-plane condition is what "convex" means
+and is what the proof uses. Statement kept for reference, not proved ([S]):
+  (∀ consecutive triples (a, b, c) of r, cyclically, 0 < cross a b c) →
+     (windingOrder r = some .ccw ↔ 0 < twiceSignedRingArea r)
+(true also for star polygons, but it needs a winding-number argument, not a fan).
+
+Proof: `shoelace2 r = Σ_{(a,b) edge} cross s a b` for *every* apex `s` (the fan decomposition is the
+shift invariance read with `det (a-s) (b-s) = cross s a b`). With `s` a vertex of a convex ring all
+terms have the sign of the ring. The pivot triple `(pv, p, nx)` of `winding_order` consists of two
+edges `(pv, p)`, `(p, nx)` of the ring (after skipping copies of `p`); its determinant is the fan
+term of the edge `(p, nx)` seen from `pv`, so it has the sign of the ring and, when non-zero, makes
+the sum non-zero; when it is zero, `pv`, `nx` lie on one ray from the lexicographically least point
+`p`, the two half-plane conditions squeeze every coordinate onto that ray's line, and the area is
+zero. -/
+
+private theorem mem_of_mem_edges {r : List Pt} {e : Pt × Pt} (h : e ∈ edges r) : e.1 ∈ r ∧ e.2 ∈ r := by
+  obtain ⟨a, b⟩ := e
+  have := List.of_mem_zip h
+  exact ⟨this.1, List.mem_of_mem_tail this.2⟩
+
+private theorem convex_sign_core {σ : Rat} (hσ : σ * σ = 1) {r : List Pt}
+    (hc : r.head? = r.getLast?) (hcv : convexSgn σ r) {pv p nx : Pt}
+    (hp : pivotTriple r = some (pv, p, nx)) :
+    0 ≤ σ * cross pv p nx ∧ (0 < σ * cross pv p nx → 0 < σ * shoelace2 r) ∧
+      (cross pv p nx = 0 → shoelace2 r = 0) := by
+  obtain ⟨i, hl, hn, hv⟩ := (pivotTriple_some_iff r pv p nx).1 hp
+  obtain ⟨hidx, _⟩ := leastIndex_spec hl
+  obtain ⟨_, hpvm, _, hpvne, hnxne, hmin⟩ := pivot_spec r pv p nx hp
+  have e1 := pivot_next_edge hc hidx hn
+  have e2 := pivot_prev_edge hc hidx hv
+  refine ⟨?_, ?_, ?_⟩
+  · have := hcv _ e1 pv hpvm
+    simp only at this
+    rwa [cross_cyc] at this
+  · intro hpos
+    exact convex_area_pos hc hcv e1 hpvm hpos
+  · intro hz
+    have hline : ∀ q ∈ r, cross p nx q = 0 := fun q hq =>
+      collinear_pivot_zero hσ hz (hmin pv hpvm) (hmin nx (mem_of_mem_edges e1).2) hpvne hnxne
+        (hcv _ e1 q hq) (hcv _ e2 q hq)
+    rw [shoelace2_eq_fan p r hc]
+    apply sumRat_map_zero
+    intro e he
+    obtain ⟨ha, hb⟩ := mem_of_mem_edges he
+    exact cross_zero_of_collinear hnxne (hline _ ha) (hline _ hb)
+
+private theorem shoelace2_short (r : List Pt) (hc : r.head? = r.getLast?) (hl : r.length < 4) :
+    shoelace2 r = 0 := by
+  match r, hc, hl with
+  | [], _, _ => rfl
+  | [a], _, _ => rfl
+  | [a, b], hc, _ =>
+    have : a = b := by simpa using hc
+    subst this
+    simp only [shoelace2, det_self]; ring
+  | [a, b, c], hc, _ =>
+    have : a = c := by simpa using hc
+    subst this
+    simp only [shoelace2, det_swap a b]; ring
+  | _ :: _ :: _ :: _ :: _, _, hl => simp at hl; omega
+
+/-- [T] `windingOrder_eq_sign_area_convex`: for every convex ring (no further hypothesis: open,
+short, flat rings, repeated coordinates and collinear vertices included) `winding_order` is the
+sign of the exact area computed by `twice_signed_ring_area`: counter-clockwise iff positive,
+clockwise iff negative, `None` iff zero. This is the convex case of the unproved full statement
+`windingOrder_eq_sign_area` (all simple rings). -/
+theorem windingOrder_eq_sign_area_convex (r : List Pt) (hcv : convexRing r) :
+    (windingOrder r = some .ccw ↔ 0 < twiceSignedRingArea r) ∧
+    (windingOrder r = some .cw ↔ twiceSignedRingArea r < 0) ∧
+    (windingOrder r = none ↔ twiceSignedRingArea r = 0) := by
+  by_cases hc : r.head? = r.getLast?
+  swap
+  · have hcl : ringClosed r = false := by simp [ringClosed, hc]
+    have hn : windingOrder r = none := (windingOrder_none_iff r).2 (Or.inr (Or.inl hcl))
+    rw [twice_open r hc, hn]; simp
+  have hcl : ringClosed r = true := by simp [ringClosed, hc]
+  rw [twice_closed r hc]
+  by_cases hlen : r.length < 4
+  · have hn : windingOrder r = none := (windingOrder_none_iff r).2 (Or.inl hlen)
+    rw [shoelace2_short r hc hlen, hn]; simp
+  cases hp : pivotTriple r with
+  | none =>
+    have hn : windingOrder r = none := (windingOrder_none_iff r).2 (Or.inr (Or.inr (Or.inl hp)))
+    have hz : shoelace2 r = 0 := by
+      rcases (pivotTriple_none_iff r).1 hp with rfl | ⟨p, hall⟩
+      · rfl
+      · rw [shoelace2_eq_fan p r hc]
+        apply sumRat_map_zero
+        intro e he
+        obtain ⟨ha, hb⟩ := mem_of_mem_edges he
+        rw [hall _ ha, hall _ hb]; simp only [cross]; ring
+    rw [hz, hn]; simp
+  | some t =>
+    obtain ⟨pv, p, nx⟩ := t
+    have hccw : windingOrder r = some .ccw ↔ 0 < cross pv p nx := by
+      rw [windingOrder_ccw_iff]
+      constructor
+      · rintro ⟨_, _, pv', p', nx', hp', hc'⟩
+        rw [hp] at hp'; cases hp'; exact hc'
+      · intro h; exact ⟨by omega, hcl, pv, p, nx, hp, h⟩
+    have hcw : windingOrder r = some .cw ↔ cross pv p nx < 0 := by
+      rw [windingOrder_cw_iff]
+      constructor
+      · rintro ⟨_, _, pv', p', nx', hp', hc'⟩
+        rw [hp] at hp'; cases hp'; exact hc'
+      · intro h; exact ⟨by omega, hcl, pv, p, nx, hp, h⟩
+    have hnone : windingOrder r = none ↔ cross pv p nx = 0 := by
+      rw [windingOrder_none_iff]
+      constructor
+      · rintro (h | h | h | ⟨pv', p', nx', hp', hc'⟩)
+        · exact absurd h hlen
+        · rw [hcl] at h; cases h
+        · rw [hp] at h; cases h
+        · rw [hp] at hp'; cases hp'; exact hc'
+      · intro h; exact Or.inr (Or.inr (Or.inr ⟨pv, p, nx, hp, h⟩))
+    rw [hccw, hcw, hnone]
+    rcases hcv with hcv | hcv
+    · obtain ⟨h0, hpos, hzero⟩ := convex_sign_core (σ := 1) (by ring) hc ((convexCcw_iff r).1 hcv) hp
+      simp only [one_mul] at h0 hpos
+      rcases lt_or_eq_of_le h0 with h | h
+      · have := hpos h
+        exact ⟨⟨fun _ => this, fun _ => h⟩, ⟨fun h' => by linarith, fun h' => by linarith⟩,
+          ⟨fun h' => by linarith, fun h' => by linarith⟩⟩
+      · have := hzero h.symm
+        rw [this, ← h]; simp
+    · obtain ⟨h0, hpos, hzero⟩ := convex_sign_core (σ := -1) (by ring) hc ((convexCw_iff r).1 hcv) hp
+      simp only [neg_mul, one_mul] at h0 hpos
+      rcases lt_or_eq_of_le h0 with h | h
+      · have := hpos h
+        exact ⟨⟨fun h' => by linarith, fun h' => by linarith⟩, ⟨fun _ => by linarith, fun _ => by linarith⟩,
+          ⟨fun h' => by linarith, fun h' => by linarith⟩⟩
+      · have hz : cross pv p nx = 0 := by linarith
+        have := hzero hz
+        rw [this, hz]; simp
+
+/-- a convex quadrilateral given clockwise, start vertex not the least one, with a repeated
+coordinate and a collinear vertex -/
+example : windingOrder [⟨4, 0⟩, ⟨2, 0⟩, ⟨0, 0⟩, ⟨0, 0⟩, ⟨0, 3⟩, ⟨4, 3⟩, ⟨4, 0⟩] = some .cw := by
+  have hcv : convexRing [⟨4, 0⟩, ⟨2, 0⟩, ⟨0, 0⟩, ⟨0, 0⟩, ⟨0, 3⟩, ⟨4, 3⟩, ⟨4, 0⟩] := by
+    right
+    intro e he q hq
+    simp only [edges, List.tail_cons, List.zip_cons_cons, List.zip_nil_right, List.mem_cons,
+      List.not_mem_nil, or_false] at he hq
+    rcases he with rfl | rfl | rfl | rfl | rfl | rfl <;>
+      rcases hq with rfl | rfl | rfl | rfl | rfl | rfl | rfl <;> norm_num [cross]
+  rw [(windingOrder_eq_sign_area_convex _ hcv).2.1, twice_eq_shoelace _ (by decide)]
+  norm_num [shoelace2, det]
+
+/-- Why `convexRing` is not "all turns have the same sign": in the pentagram below every turn is a
+strict left turn, yet the fan triangle `(p, v₃, v₄)` from its lexicographically least vertex
+`p = (-10, 3)` is clockwise. (Its winding order and area are nevertheless both positive.) -/
+theorem pentagram_fan_counterexample :
+    let v0 : Pt := ⟨0, 10⟩; let v1 : Pt := ⟨-6, -8⟩; let v2 : Pt := ⟨10, 3⟩
+    let v3 : Pt := ⟨-10, 3⟩; let v4 : Pt := ⟨6, -8⟩
+    (0 < cross v0 v1 v2 ∧ 0 < cross v1 v2 v3 ∧ 0 < cross v2 v3 v4 ∧ 0 < cross v3 v4 v0 ∧
+      0 < cross v4 v0 v1) ∧ cross v3 v0 v1 < 0 ∧
+      windingOrder [v0, v1, v2, v3, v4, v0] = some .ccw ∧ 0 < twiceSignedRingArea [v0, v1, v2, v3, v4, v0] ∧
+      ¬ convexRing [v0, v1, v2, v3, v4, v0] := by
+  intro v0 v1 v2 v3 v4
+  refine ⟨by norm_num [cross, v0, v1, v2, v3, v4], by norm_num [cross, v0, v1, v3], by decide +kernel, ?_, ?_⟩
+  · rw [twice_eq_shoelace _ (by decide)]
+    norm_num [shoelace2, det, v0, v1, v2, v3, v4]
+  · rintro (h | h)
+    · have := h (v0, v1) (by simp [edges]) v3 (by simp)
+      norm_num [cross, v0, v1, v3] at this
+    · have := h (v0, v1) (by simp [edges]) v2 (by simp)
+      norm_num [cross, v0, v1, v2] at this
+
 /-! ### orient -/
 
 private theorem toWinding_cases (w : WO) (r : List Pt) : toWinding w r = r ∨ toWinding w r = r.reverse := by
@@ -706,20 +886,24 @@ example : PivotOnce [⟨1, 0⟩, ⟨2, 2⟩, ⟨0, 1⟩, ⟨1, 0⟩] :=
     rcases hq with rfl | rfl | rfl | rfl <;> simp [lexLt],
    Or.inl ⟨[⟨1, 0⟩, ⟨2, 2⟩], [⟨1, 0⟩], rfl, by simp, by simp⟩⟩
 
-private theorem toWinding_not_flip {w : WO} {r : List Pt} (h : PivotOnce r) :
+private theorem toWinding_not_flip' {w : WO} {r : List Pt}
+    (h : windingOrder r.reverse = (windingOrder r).map WO.flip) :
     windingOrder (toWinding w r) ≠ some (WO.flip w) := by
   cases w
   · -- want cw: result must not be ccw
     simp only [toWinding, makeCw, WO.flip]
     split
     · rename_i hw
-      rw [windingOrder_reverse' h, hw]; simp [WO.flip]
+      rw [h, hw]; simp [WO.flip]
     · assumption
   · simp only [toWinding, makeCcw, WO.flip]
     split
     · rename_i hw
-      rw [windingOrder_reverse' h, hw]; simp [WO.flip]
+      rw [h, hw]; simp [WO.flip]
     · assumption
+
+private theorem toWinding_not_flip {w : WO} {r : List Pt} (h : PivotOnce r) :
+    windingOrder (toWinding w r) ≠ some (WO.flip w) := toWinding_not_flip' (windingOrder_reverse' h)
 
 private theorem toWinding_of_not_flip {w : WO} {r : List Pt} (h : windingOrder r ≠ some (WO.flip w)) :
     toWinding w r = r := by
@@ -730,6 +914,40 @@ private theorem close_toWinding_eq (w : WO) (r : List Pt) (h : SM.isClosed r = t
   rcases toWinding_cases w r with e | e <;> rw [e]
   · simp [SM.close, h]
   · simp [SM.close, closed_reverse h]
+
+/-- what `orient_post` and `orient_idem` need of each ring: reversal flips its winding order -/
+private theorem orient_post_of_rev (d : Direction) (p : Poly) (he : SM.isClosed p.ext = true)
+    (hi : ∀ h ∈ p.ints, SM.isClosed h = true)
+    (pe : windingOrder p.ext.reverse = (windingOrder p.ext).map WO.flip)
+    (pi : ∀ h ∈ p.ints, windingOrder h.reverse = (windingOrder h).map WO.flip) :
+    windingOrder (orientPoly d p).ext ≠ some (WO.flip d.extW) ∧
+      ∀ h ∈ (orientPoly d p).ints, windingOrder h ≠ some (WO.flip d.intW) := by
+  constructor
+  · show windingOrder (SM.close (toWinding d.extW p.ext)) ≠ _
+    rw [close_toWinding_eq _ _ he]; exact toWinding_not_flip' pe
+  · intro h hh
+    simp only [orientPoly, List.map_map, List.mem_map, Function.comp] at hh
+    obtain ⟨a, ha, rfl⟩ := hh
+    rw [close_toWinding_eq _ _ (hi a ha)]; exact toWinding_not_flip' (pi a ha)
+
+private theorem orient_idem_of_rev (d : Direction) (p : Poly) (he : SM.isClosed p.ext = true)
+    (hi : ∀ h ∈ p.ints, SM.isClosed h = true)
+    (pe : windingOrder p.ext.reverse = (windingOrder p.ext).map WO.flip)
+    (pi : ∀ h ∈ p.ints, windingOrder h.reverse = (windingOrder h).map WO.flip) :
+    orientPoly d (orientPoly d p) = orientPoly d p := by
+  have hstep : ∀ (w : WO) (r : List Pt), SM.isClosed r = true →
+      windingOrder r.reverse = (windingOrder r).map WO.flip →
+      SM.close (toWinding w (SM.close (toWinding w r))) = SM.close (toWinding w r) := by
+    intro w r hc hp
+    rw [close_toWinding_eq w r hc, toWinding_of_not_flip (toWinding_not_flip' hp)]
+    exact close_toWinding_eq w r hc
+  show Poly.mk _ _ = Poly.mk _ _
+  congr 1
+  · exact hstep _ _ he pe
+  · simp only [orientPoly, List.map_map]
+    apply List.map_congr_left
+    intro a ha
+    exact hstep _ _ (hi a ha) (pi a ha)
 
 /-- [Tp] `orient_post`: the exterior of the result does not have the winding opposite to the
 requested one, and no hole has the winding opposite to the one requested for holes. -/
@@ -761,5 +979,218 @@ theorem orient_idem_partial (d : Direction) (p : Poly) (he : SM.isClosed p.ext =
     apply List.map_congr_left
     intro a ha
     exact hstep _ _ (hi a ha) (pi a ha)
+
+/-! ### Start vertex of a ring
+
+Full statement (false in general, for the same reason as reversal: a ring that passes through its
+least point twice has two candidate pivots and `least_index` takes the first in list order, which
+depends on the start vertex — see the pinched ring below):
+  windingOrder_rotate : r.head? = r.getLast? → windingOrder (rotate1 r) = windingOrder r -/
+
+/-- [Tp] `windingOrder_rotate`: moving the start vertex of a closed ring by any number of steps
+does not change `winding_order`, when the least point is visited once (`PivotOnce`; preserved by
+rotation, as is closedness). -/
+theorem windingOrder_rotate_partial (k : Nat) (r : List Pt) (hc : r.head? = r.getLast?)
+    (h : PivotOnce r) :
+    windingOrder (rotateN k r) = windingOrder r ∧ PivotOnce (rotateN k r) ∧
+      (rotateN k r).head? = (rotateN k r).getLast? := windingOrder_rotateN k hc h
+
+example : rotateN 2 [⟨1, 0⟩, ⟨2, 2⟩, ⟨0, 1⟩, ⟨1, 0⟩] = [⟨0, 1⟩, ⟨1, 0⟩, ⟨2, 2⟩, ⟨0, 1⟩] := by decide
+
+/-- witness that `PivotOnce` cannot be dropped: a ring pinched at its least point `(0,0)`, one lobe
+counter-clockwise, the other clockwise; the reported winding depends on the start vertex -/
+theorem windingOrder_rotate_pinched_witness :
+    let r : List Pt := [⟨0, 0⟩, ⟨2, 1⟩, ⟨2, 2⟩, ⟨0, 0⟩, ⟨1, 3⟩, ⟨2, 3⟩, ⟨0, 0⟩]
+    windingOrder r = some .ccw ∧ windingOrder (rotate1 r) = some .cw := by
+  decide +kernel
+
+/-! ### Convex rings: reversal, `orient` without `PivotOnce`
+
+A convex ring may visit its least point several times in a row (repeated coordinates) — `PivotOnce`
+fails for it — but its winding order is the sign of its area, and the area is negated by reversal. -/
+
+/-- [T] reversing a convex ring flips `winding_order` (and keeps `None`). -/
+theorem windingOrder_reverse_convex (r : List Pt) (h : convexRing r) :
+    windingOrder r.reverse = (windingOrder r).map WO.flip := by
+  obtain ⟨a1, a2, a3⟩ := windingOrder_eq_sign_area_convex r h
+  obtain ⟨b1, b2, b3⟩ := windingOrder_eq_sign_area_convex r.reverse (convexRing_reverse h)
+  rw [ringArea_reverse] at b1 b2 b3
+  rcases lt_trichotomy (twiceSignedRingArea r) 0 with hlt | heq | hgt
+  · rw [a2.2 hlt, b1.2 (by linarith)]; rfl
+  · rw [a3.2 heq, b3.2 (by linarith)]; rfl
+  · rw [a1.2 hgt, b2.2 (by linarith)]; rfl
+
+/-- [T] `orient_post` for polygons with convex rings. -/
+theorem orient_post_convex (d : Direction) (p : Poly) (he : SM.isClosed p.ext = true)
+    (hi : ∀ h ∈ p.ints, SM.isClosed h = true) (ce : convexRing p.ext) (ci : ∀ h ∈ p.ints, convexRing h) :
+    windingOrder (orientPoly d p).ext ≠ some (WO.flip d.extW) ∧
+      ∀ h ∈ (orientPoly d p).ints, windingOrder h ≠ some (WO.flip d.intW) :=
+  orient_post_of_rev d p he hi (windingOrder_reverse_convex _ ce)
+    (fun h hh => windingOrder_reverse_convex _ (ci h hh))
+
+/-- [T] `orient_idem` for polygons with convex rings, without `PivotOnce`. -/
+theorem orient_idem_convex (d : Direction) (p : Poly) (he : SM.isClosed p.ext = true)
+    (hi : ∀ h ∈ p.ints, SM.isClosed h = true) (ce : convexRing p.ext) (ci : ∀ h ∈ p.ints, convexRing h) :
+    orientPoly d (orientPoly d p) = orientPoly d p :=
+  orient_idem_of_rev d p he hi (windingOrder_reverse_convex _ ce)
+    (fun h hh => windingOrder_reverse_convex _ (ci h hh))
+
+/-- [T] every triangle ring is convex — so `windingOrder_eq_sign_area_convex` contains the triangle
+case without the distinctness hypotheses of `windingOrder_eq_sign_area_triangle_partial`. -/
+theorem convexRing_triangle (a b c : Pt) : convexRing [a, b, c, a] := by
+  have key : ∀ e ∈ edges [a, b, c, a], ∀ q ∈ [a, b, c, a],
+      cross e.1 e.2 q = cross a b c ∨ cross e.1 e.2 q = 0 := by
+    intro e he q hq
+    simp only [edges, List.tail_cons, List.zip_cons_cons, List.zip_nil_right, List.mem_cons,
+      List.not_mem_nil, or_false] at he hq
+    rcases he with rfl | rfl | rfl <;> rcases hq with rfl | rfl | rfl | rfl <;>
+      (first | (left; rfl) | (right; simp only [cross]; ring1) | (left; simp only [cross]; ring1))
+  rcases le_total 0 (cross a b c) with h | h
+  · left
+    intro e he q hq
+    rcases key e he q hq with h' | h'
+    · rw [h']; exact h
+    · rw [h']
+  · right
+    intro e he q hq
+    rcases key e he q hq with h' | h'
+    · rw [h']; exact h
+    · rw [h']
+
+/-- [T] winding order = sign of the area for *every* triangle ring (degenerate ones included). -/
+theorem windingOrder_eq_sign_area_triangle (a b c : Pt) :
+    (windingOrder [a, b, c, a] = some .ccw ↔ 0 < twiceSignedRingArea [a, b, c, a]) ∧
+    (windingOrder [a, b, c, a] = some .cw ↔ twiceSignedRingArea [a, b, c, a] < 0) ∧
+    (windingOrder [a, b, c, a] = none ↔ twiceSignedRingArea [a, b, c, a] = 0) :=
+  windingOrder_eq_sign_area_convex _ (convexRing_triangle a b c)
+
+/-- [T] the polygon form of every `Rect` is a convex ring. -/
+theorem convexRing_rect (mn mx : Pt) : convexRing (rectToPoly mn mx).ext := by
+  have key : ∀ e ∈ edges (rectToPoly mn mx).ext, ∀ q ∈ (rectToPoly mn mx).ext,
+      cross e.1 e.2 q = (mx.x - mn.x) * (mx.y - mn.y) ∨ cross e.1 e.2 q = 0 := by
+    intro e he q hq
+    simp only [rectToPoly, edges, List.tail_cons, List.zip_cons_cons, List.zip_nil_right,
+      List.mem_cons, List.not_mem_nil, or_false] at he hq
+    rcases he with rfl | rfl | rfl | rfl <;> rcases hq with rfl | rfl | rfl | rfl | rfl <;>
+      (first | (right; simp only [cross]; ring1) | (left; simp only [cross]; ring1))
+  rcases le_total 0 ((mx.x - mn.x) * (mx.y - mn.y)) with h | h
+  · left
+    intro e he q hq
+    rcases key e he q hq with h' | h'
+    · rw [h']; exact h
+    · rw [h']
+  · right
+    intro e he q hq
+    rcases key e he q hq with h' | h'
+    · rw [h']; exact h
+    · rw [h']
+
+example : orientPoly .default (orientPoly .default (rectToPoly ⟨0, 0⟩ ⟨3, 2⟩)) =
+    orientPoly .default (rectToPoly ⟨0, 0⟩ ⟨3, 2⟩) :=
+  orient_idem_convex _ _ (by decide) (by decide) (convexRing_rect _ _) (by simp [rectToPoly])
+
+/-- closes `cross … = cross …` / `cross … = 0` identities -/
+local macro "cross_ring" : tactic => `(tactic| first | rfl | (simp only [cross]; ring1))
+
+/-- [T] a quadrilateral ring whose four turns have the same sign is convex: with four vertices every
+(edge, vertex) pair is a consecutive triple. (From five vertices on this fails: pentagram.) -/
+theorem convexRing_quad (a b c d : Pt)
+    (h : (0 ≤ cross a b c ∧ 0 ≤ cross b c d ∧ 0 ≤ cross c d a ∧ 0 ≤ cross d a b) ∨
+      (cross a b c ≤ 0 ∧ cross b c d ≤ 0 ∧ cross c d a ≤ 0 ∧ cross d a b ≤ 0)) :
+    convexRing [a, b, c, d, a] := by
+  have key : ∀ e ∈ edges [a, b, c, d, a], ∀ q ∈ [a, b, c, d, a],
+      cross e.1 e.2 q = 0 ∨ cross e.1 e.2 q = cross a b c ∨ cross e.1 e.2 q = cross b c d ∨
+        cross e.1 e.2 q = cross c d a ∨ cross e.1 e.2 q = cross d a b := by
+    intro e he q hq
+    simp only [edges, List.tail_cons, List.zip_cons_cons, List.zip_nil_right, List.mem_cons,
+      List.not_mem_nil, or_false] at he hq
+    rcases he with rfl | rfl | rfl | rfl <;> rcases hq with rfl | rfl | rfl | rfl | rfl <;>
+      (first
+        | (left; cross_ring)
+        | (right; left; cross_ring)
+        | (right; right; left; cross_ring)
+        | (right; right; right; left; cross_ring)
+        | (right; right; right; right; cross_ring))
+  rcases h with ⟨h1, h2, h3, h4⟩ | ⟨h1, h2, h3, h4⟩
+  · left
+    intro e he q hq
+    rcases key e he q hq with h' | h' | h' | h' | h' <;> rw [h'] <;> assumption
+  · right
+    intro e he q hq
+    rcases key e he q hq with h' | h' | h' | h' | h' <;> rw [h'] <;> assumption
+
+example : convexRing [⟨0, 0⟩, ⟨4, 1⟩, ⟨5, 5⟩, ⟨1, 3⟩, ⟨0, 0⟩] :=
+  convexRing_quad _ _ _ _ (Or.inl (by norm_num [cross]))
+
+/-! ### T3: rounding-error bound for `twice_signed_ring_area` under the standard model
+
+`fl : Rat → Rat` is an arbitrary rounding function with `|fl x − x| ≤ u·|x|` for all `x`
+(`RoundsWithin fl u`; binary64 round-to-nearest: `u = 2^-53`, no underflow/overflow). The computation
+`flTwiceSignedRingArea fl` (GeoProofs/Lemmas/C05PFloat.lean) applies `fl` after every subtraction of
+the shift, every product, every determinant subtraction and every accumulation; with `fl = id` it is
+the model (`flTwice_id`).
+
+The bound is in terms of the magnitudes of the two *products* of each shifted determinant,
+`|aᵢ.x−s.x|·|aᵢ₊₁.y−s.y| + |aᵢ.y−s.y|·|aᵢ₊₁.x−s.x|` — not of `|detᵢ|` as written in DESIGN §7: a
+determinant of two nearly parallel shifted vectors is small while the rounding errors of its
+products are not, so no bound proportional to `Σ|detᵢ|` holds. Each product magnitude is at most
+`D²` (`D` the bounding-box diagonal), which is how the shift makes the error independent of the
+distance from the origin. (`flSum_error` below is the `Σ|dᵢ|` form for the summation alone.) -/
+
+/-- [T] T3: `|fl_area − area| ≤ ((1+u)^(n+3) − 1)·Σ|products|`, `n` the number of coordinates. -/
+theorem area_rounding_error {fl : Rat → Rat} {u : Rat} (hu : 0 ≤ u) (hfl : RoundsWithin fl u)
+    (s : Pt) (t : List Pt) :
+    |flTwiceSignedRingArea fl (s :: t) - twiceSignedRingArea (s :: t)| ≤
+      ((1 + u) ^ ((s :: t).length + 3) - 1) * sumRat (detMags s (s :: t)) :=
+  flTwice_error hu hfl s t
+
+/-- [T] T3 with the explicit constant `γ = (n+3)u / (1 − (n+3)u)`. -/
+theorem area_rounding_error_gamma {fl : Rat → Rat} {u : Rat} (hu : 0 ≤ u) (hfl : RoundsWithin fl u)
+    (s : Pt) (t : List Pt) (hk : (((s :: t).length + 3 : Nat) : Rat) * u < 1) :
+    |flTwiceSignedRingArea fl (s :: t) - twiceSignedRingArea (s :: t)| ≤
+      ((((s :: t).length + 3 : Nat) : Rat) * u / (1 - (((s :: t).length + 3 : Nat) : Rat) * u)) *
+        sumRat (detMags s (s :: t)) :=
+  flTwice_error_gamma hu hfl s t hk
+
+example : |flTwiceSignedRingArea (fun x => x * (1 + 1 / 1024))
+      [⟨100, 100⟩, ⟨104, 100⟩, ⟨104, 103⟩, ⟨100, 100⟩] -
+    twiceSignedRingArea [⟨100, 100⟩, ⟨104, 100⟩, ⟨104, 103⟩, ⟨100, 100⟩]| ≤
+    (((4 + 3 : Nat) : Rat) * (1 / 1024) / (1 - ((4 + 3 : Nat) : Rat) * (1 / 1024))) *
+      sumRat (detMags ⟨100, 100⟩ [⟨100, 100⟩, ⟨104, 100⟩, ⟨104, 103⟩, ⟨100, 100⟩]) :=
+  area_rounding_error_gamma (by norm_num) (by
+    intro x
+    have : x * (1 + 1 / 1024) - x = 1 / 1024 * x := by ring
+    simp only [this, abs_mul]
+    norm_num) ⟨100, 100⟩ [⟨104, 100⟩, ⟨104, 103⟩, ⟨100, 100⟩] (by norm_num)
+
+/-- [T] the accumulation loop alone, for any values `ds`:
+`|fl_sum − Σ ds| ≤ ((1+u)^n − 1)·Σ|dᵢ|`. -/
+theorem sum_rounding_error {fl : Rat → Rat} {u : Rat} (hu : 0 ≤ u) (hfl : RoundsWithin fl u)
+    (ds : List Rat) :
+    |flSum fl 0 ds - sumRat ds| ≤ ((1 + u) ^ ds.length - 1) * sumRat (ds.map (fun d => |d|)) :=
+  flSum_error hu hfl ds
+
+/-- a rounding function that is not the identity: always 2^-10 too large in magnitude -/
+example : RoundsWithin (fun x => x * (1 + 1 / 1024)) (1 / 1024) := by
+  intro x
+  have : x * (1 + 1 / 1024) - x = 1 / 1024 * x := by ring
+  simp only [this, abs_mul]
+  norm_num
+
+example : |flTwiceSignedRingArea (fun x => x * (1 + 1 / 1024))
+      [⟨100, 100⟩, ⟨104, 100⟩, ⟨104, 103⟩, ⟨100, 100⟩] - 12| ≤
+    ((1 + 1 / 1024) ^ 7 - 1) * 12 := by
+  have hfl : RoundsWithin (fun x => x * (1 + 1 / 1024)) (1 / 1024) := by
+    intro x
+    have : x * (1 + 1 / 1024) - x = 1 / 1024 * x := by ring
+    simp only [this, abs_mul]
+    norm_num
+  have h := area_rounding_error (by norm_num) hfl ⟨100, 100⟩ [⟨104, 100⟩, ⟨104, 103⟩, ⟨100, 100⟩]
+  have e1 : twiceSignedRingArea [⟨100, 100⟩, ⟨104, 100⟩, ⟨104, 103⟩, ⟨100, 100⟩] = 12 := by
+    rw [twice_eq_shoelace _ (by decide)]; norm_num [shoelace2, det]
+  have e2 : sumRat (detMags ⟨100, 100⟩ [⟨100, 100⟩, ⟨104, 100⟩, ⟨104, 103⟩, ⟨100, 100⟩]) = 12 := by
+    norm_num [detMags, sumRat]
+  rw [e1, e2] at h
+  exact h
 
 end Geo.Proofs.C05
